@@ -2,7 +2,7 @@
    Model: model/Color.v (kernels of jccolext.c / jdcolext.c / jdmrgext.c per layout, row pointers of
    turbojpeg-mp.c, gray extraction); generated facts: gen/GenLayouts.v. *)
 From Coq Require Import List ZArith.
-From LJT Require Import gen.GenLayouts model.Color proofs.ColorProofs.
+From LJT Require Import gen.GenLayouts model.Color proofs.ColorProofs model.TJFlags proofs.TJFlagsProofs.
 Import ListNotations.
 Local Open Scope Z_scope.
 
@@ -146,6 +146,21 @@ Theorem C10_decode_index_in_clamp_range : forall p mrg, p = prec8 \/ p = prec12 
   - (sp_max p + 1) <= y + c2 ch < 2 * (sp_max p + 1) + sp_center p.
 Proof. exact decode_index_in_clamp_range. Qed.
 Print Assumptions C10_decode_index_in_clamp_range.
+
+(* every way the row order is requested: the legacy entry points (tjCompress2, tjDecompress2, tjEncodeYUV3, ... 13 callers)
+   go through processFlags(), whose statements are generated from the current turbojpeg.c.  After it, bottomUp,
+   fastUpsample, noRealloc, fastDCT, stopOnWarning and progressive are functions of this call's (flags, quality,
+   operation) alone -- whatever an earlier call left in the instance -- and bottomUp is exactly TJFLAG_BOTTOMUP of this call.
+   (scanLimit is deliberately set-only in the source and is not a per-call parameter.) *)
+Theorem C10_process_flags_history_free : forall flags q op st1 st2 k, In k per_call_fields ->
+  process_flags flags q op st1 k = process_flags flags q op st2 k.
+Proof. exact process_flags_history_free. Qed.
+Print Assumptions C10_process_flags_history_free.
+
+Theorem C10_process_flags_bottomup : forall flags q op st,
+  process_flags flags q op st F_bottomUp = b2z (has flags TJFLAG_BOTTOMUP).
+Proof. exact process_flags_bottomup. Qed.
+Print Assumptions C10_process_flags_bottomup.
 
 (* non-vacuity: the hypotheses of (2) and (3) hold for concrete non-trivial values *)
 Example C10_compress_example :
